@@ -514,9 +514,22 @@ Proof.
   apply andb_true_iff in E as [Ep _]. apply list_eqb_string_eq in Ep.
   destruct (a_parent self) as [|p ptl].
   - intro H. inversion H. auto.
-  - destruct (match a_parent at_ with [] => false | q :: _ => String.eqb p q end).
-    + intro H. inversion H. auto.
+  - destruct (a_parent at_) as [|q qtl].
     + destruct (String.eqb p (a_name at_)); intro H; [discriminate | inversion H; auto].
+    + intro H. inversion H. auto.
+Qed.
+
+(* since 2f90e4e: an unquoted same-file reference is only ever printed inside a TOP-LEVEL message, for a type nested in it *)
+Lemma rel_RX_same_file api names self at_ c :
+  rel api names self at_ = RX c ->
+  list_eqb String.eqb (a_pkg self) (a_pkg at_) && String.eqb (a_module self) (a_module at_) = true ->
+  a_parent at_ = [] /\ exists ptl, a_parent self = a_name at_ :: ptl /\ c = (ptl ++ [a_name self])%list.
+Proof.
+  unfold rel. intros H E. rewrite E in H.
+  destruct (a_parent self) as [|p ptl]; [discriminate|].
+  destruct (a_parent at_) as [|q qtl]; [|discriminate].
+  destruct (String.eqb p (a_name at_)) eqn:Ep; [|discriminate].
+  apply String.eqb_eq in Ep. subst p. inversion H. split; [reflexivity|]. eauto.
 Qed.
 
 (* every QUOTED reference (forward, recursive, sibling-nested, enclosing) is resolved by proto-plus to the type it was printed
@@ -546,7 +559,6 @@ Definition head_bound (api : apiD) (names : list string) (tab : modtab) (ltypes 
         match lookup2 h locals globals with
         | Some (PVType t) =>
             String.eqb t (dotted (a_pkg at_) ++ "." ++ a_name at_ ++ "." ++ h) && has_type (full_name self) k ltypes
-            && is_empty (dotted (a_parent at_))
         | _ => false
         end
       else
@@ -589,18 +601,17 @@ Proof.
     pose proof Es as Es'. apply andb_true_iff in Es' as [Ep _]. apply list_eqb_string_eq in Ep.
     destruct (a_parent self) as [|p ptl] eqn:Epar.
     + now apply resolve_quoted_direct.
-    + destruct (match a_parent at_ with [] => false | q :: _ => String.eqb p q end).
-      * now apply resolve_quoted_direct.
-      * destruct (String.eqb p (a_name at_)) eqn:Epn; [|now apply resolve_quoted_direct].
-        apply String.eqb_eq in Epn.
-        destruct (ptl ++ [a_name self])%list as [|h rest] eqn:Ec; [discriminate|].
-        destruct (lookup2 h locals globals) as [[key|t|]|] eqn:El; try discriminate.
-        intro H. apply andb_true_iff in H as [H _]. apply andb_true_iff in H as [Ht Hty]. apply String.eqb_eq in Ht.
-        unfold resolve. rewrite kind_of_kw_of. unfold resolve_rx. rewrite El.
-        assert (Hfull : full_name self = match rest with [] => t | _ :: _ => t ++ "." ++ dotted rest end).
-        { unfold full_name. rewrite Epar, Ep, Ht, Epn. cbn [app]. rewrite Ec.
-          unfold dotted. destruct rest as [|r rest']; cbn [sjoin]; rewrite ?sapp_assoc; reflexivity. }
-        rewrite <- Hfull, Hty. reflexivity.
+    + destruct (a_parent at_) as [|q qtl] eqn:Eat; [|now apply resolve_quoted_direct].
+      destruct (String.eqb p (a_name at_)) eqn:Epn; [|now apply resolve_quoted_direct].
+      apply String.eqb_eq in Epn.
+      destruct (ptl ++ [a_name self])%list as [|h rest] eqn:Ec; [discriminate|].
+      destruct (lookup2 h locals globals) as [[key|t|]|] eqn:El; try discriminate.
+      intro H. apply andb_true_iff in H as [Ht Hty]. apply String.eqb_eq in Ht.
+      unfold resolve. rewrite kind_of_kw_of. unfold resolve_rx. rewrite El.
+      assert (Hfull : full_name self = match rest with [] => t | _ :: _ => t ++ "." ++ dotted rest end).
+      { unfold full_name. rewrite Epar, Ep, Ht, Epn. cbn [app]. rewrite Ec.
+        unfold dotted. destruct rest as [|r rest']; cbn [sjoin]; rewrite ?sapp_assoc; reflexivity. }
+      rewrite <- Hfull, Hty. reflexivity.
   - (* other file: module.Parent.Name *)
     unfold str_comps.
     set (h := if is_pp api (a_pkg self) then _ else _).
@@ -635,8 +646,9 @@ Proof.
   split; vm_compute; reflexivity.
 Qed.
 
-(* (2) Address.rel, second special case: a nested message X.Foo whose field has type Foo.Bar, Foo a top-level message of the
-   same file.  rel prints the bare name Bar, which is evaluated in the body of X.Foo *)
+(* (2) fixed by 2f90e4e (kept as a regression witness, also in corpus/C02): a nested message X.Foo whose field has type
+   Foo.Bar, Foo a top-level message of the same file.  rel used to print the bare name Bar, evaluated in the body of X.Foo
+   (NameError, or the wrong type when X.Foo has a Bar of its own); it now prints the quoted full path *)
 Definition w_misfire (own_bar : bool) : fileD :=
   mkFile PK "main" []
     [Msg "Foo" [] [] [Msg "Bar" [mkField "v" 1 (TScalar S_INT32) false None false] [] [] [] false] [] false;
@@ -644,21 +656,10 @@ Definition w_misfire (own_bar : bool) : fileD :=
          [Msg "Foo" [mkField "bar" 1 (mref ["Foo"] "Bar") false None false] []
               (if own_bar then [Msg "Bar" [mkField "w" 1 (TScalar S_STRING) false None false] [] [] [] false] else []) [] false]
          [] false].
-Lemma rel_misfire_refuted :
-  (* the schema satisfies wf_msg everywhere, the referenced type exists, and yet the module fails (NameError) ... *)
-  forallb (wf_msg PK "main" "google.example.c02.v1" []) (fd_msgs (w_misfire false)) = true
-  /\ has_type "google.example.c02.v1.Foo.Bar" KMsg (flat_map (decl_types "google.example.c02.v1") (emit_file api0 (w_misfire false))) = true
-  /\ rel api0 [] (mkAddr PK "main" ["Foo"] "Bar") (mkAddr PK "main" ["X"] "Foo") = RX ["Bar"]
-  /\ file_ok api0 [] (w_misfire false) = false
-  /\ runtime_file [] (emit_header api0 (w_misfire false)) (emit_file api0 (w_misfire false)) = None
-  (* ... or, when X.Foo has a nested Bar of its own, silently declares the field with the WRONG type *)
-  /\ forallb (wf_msg PK "main" "google.example.c02.v1" []) (fd_msgs (w_misfire true)) = true
-  /\ exists ms, runtime_file [] (emit_header api0 (w_misfire true)) (emit_file api0 (w_misfire true)) = Some ([], ms)
-                /\ map (view_rt "google.example.c02.v1") ms <> map (view_in PK "main" []) (fd_msgs (w_misfire true)).
-Proof.
-  repeat split; try (vm_compute; reflexivity).
-  eexists. split; [vm_compute; reflexivity|]. vm_compute. discriminate.
-Qed.
+Lemma rel_nested_like_toplevel_ok :
+  rel api0 [] (mkAddr PK "main" ["Foo"] "Bar") (mkAddr PK "main" ["X"] "Foo") = RQ "Foo.Bar"
+  /\ file_ok api0 [] (w_misfire false) = true /\ file_ok api0 [] (w_misfire true) = true.
+Proof. repeat split; vm_compute; reflexivity. Qed.
 
 (* (3) DESIGN section 9 no. 15: two non-proto-plus dependency packages with a file of the same base name are both imported
    under the plain name thing_pb2; the import that sorts last wins *)
